@@ -1,3 +1,4 @@
 -- Root of the `GPy` library: imports every property-theorem module.
 import GPy.C07.Props
 import GPy.C15.Props
+import GPy.C16.Props
